@@ -21,6 +21,17 @@ def bump(ctr: array[int, 1]) -> int:
 def poke(a: array[int, 1]) -> None:
     a[0] = a[0] + 1000
 
+
+@guppy.struct
+class Reg:
+    data: array[int, 2]
+    tag: int
+
+
+@guppy
+def tag_of(r: Reg) -> int:
+    return r.tag
+
 """
 SENTINEL_N = 777     # stands for a symbolic length `$k` in generic std functions
 
@@ -31,10 +42,10 @@ def programs(tier, rng):
     of the expected sequence), outs (Coq expr), and how to find the region."""
     cases = []
 
-    def add(family, src, model, outs, **params):
+    def add(family, src, model, outs, expect="accept", **params):
         cid = f"p{len(cases)}"
-        cases.append({"id": cid, "family": family, "src": src.replace("FN", cid), "fn": cid,
-                      "model": model, "outs": outs, "params": params})
+        cases.append({"id": cid, "family": family, "src": src.replace("FN", cid), "fn": cid, "src_template": src,
+                      "model": model, "outs": outs, "params": params, "expect": expect})
 
     thorough = tier == "thorough"
     ns = [1, 3, 5] + ([2, 4, 6, 8, 13] if thorough else [])
@@ -120,6 +131,27 @@ def programs(tier, rng):
     for (n, m, p_) in ([(3, 2, 2)] + ([(2, 1, 3)] if thorough else [])):
         add("lend_nested3", f"@guppy\ndef FN(qs: array[array[array[qubit, {p_}], {m}], {n}], i: int, j: int, k: int) -> None:\n    h(qs[i][j][k])\n",
             f'seq_lend_nested3 {n} {m} {p_} "H"', "outs_lend_nested3", n=n, m=m, p=p_, leaf="qubit")
+    # ---- arrays whose elements are NOT copyable but droppable and have a copyable projection
+    # ---- (struct Reg = (array[int, 2], int), tuple (array, int)).  A by-value read of the projection
+    # ---- through a subscript must be REJECTED (it would have to take the element out for good);
+    # ---- lending the element, reading through to a copyable leaf, assigning are accepted.
+    for n in ([3] + ([1, 4] if thorough else [])):
+        add("elem_read", f"@guppy\ndef FN(rs: array[Reg, {n}], i: int) -> int:\n    return rs[i].tag\n", None, None,
+            expect="reject", n=n, elem="struct", reads=1)
+        add("elem_read", f"@guppy\ndef FN(rs: array[Reg, {n}], i: int) -> int:\n    a = rs[i].tag\n    b = rs[i].tag\n    return a + b\n", None, None,
+            expect="reject", n=n, elem="struct", reads=2)
+        add("elem_read", f"@guppy\ndef FN(ts: array[tuple[array[int, 2], int], {n}], i: int) -> int:\n    return ts[i][1]\n", None, None,
+            expect="reject", n=n, elem="tuple", reads=1)
+        add("elem_lend", f"@guppy\ndef FN(rs: array[Reg, {n}], i: int) -> int:\n    return tag_of(rs[i])\n", None, None, n=n, elem="struct")
+        add("elem_leaf_read", f"@guppy\ndef FN(rs: array[Reg, {n}], i: int) -> int:\n    return rs[i].data[1]\n", None, None, n=n, elem="struct")
+        if n == 3:   # fixed program texts: both are KNOWN FINDINGS on /repo (props/C19/known_findings.json)
+            add("elem_assign", f"@guppy\ndef FN(rs: array[Reg, {n}], i: int) -> None:\n    rs[i] = Reg(array(1, 2), 5)\n", None, None, n=n, elem="struct")
+            add("elem_assign", f"@guppy\ndef FN(xss: array[array[int, 2], {n}], i: int) -> None:\n    xss[i] = array(1, 2)\n", None, None, n=n, elem="row")
+        add("augassign", f"@guppy\ndef FN(xs: array[int, {n}], i: int) -> None:\n    xs[i] += 1\n", None, None, n=n, index="var")
+        if n == 3:   # KNOWN FINDING (also C05): the index expression of an augmented assignment is evaluated twice
+            add("augassign", f"@guppy\ndef FN(xs: array[int, {n}], ctr: array[int, 1]) -> None:\n    xs[bump(ctr)] += 1\n", None, None, n=n, index="oracle")
+    add("elem_read2", "@guppy\ndef FN(rss: array[array[Reg, 2], 2], i: int, j: int) -> int:\n    return rss[i][j].tag\n", None, None,
+        expect="reject", n=2, m=2, elem="struct")
     for n in ([2, 4] + ([1, 7] if thorough else [])):
         add("comp", f"@guppy\ndef FN(xs: array[int, {n}] @ owned) -> array[int, {n}]:\n    return array(x for x in xs)\n",
             f"seq_comp_step {n}", "outs_comp_step", n=n, ty="int")
@@ -187,6 +219,8 @@ def coq_op(op, sym=None):
         return f"(OGate {coq_str(args[0])})"
     if name == "call":
         return f"(OCall {coq_str(args[0])} {args[1]})"
+    if name == "other" and args[0] == "tket.guppy.drop":
+        return "ODrop"
     if name == "other":
         return f"(OOther {coq_str(args[0])} {args[1]})"
     raise ValueError(f"unknown op token {op}")
@@ -384,6 +418,8 @@ def spec(family, params, inputs):
         return PANIC
     if family in NESTED:
         return spec_nested(family, params, inputs)
+    if family in ELEM:
+        return spec_elem(family, params, inputs)
     if family == "next_some":
         i, cells = inputs[0][1], inputs[1][1]
         if in_range(n, i) and cells[i] is not None:
@@ -392,6 +428,161 @@ def spec(family, params, inputs):
             return [("sum", 1, [("tuple", [cells[i], ("tuple", [("arr", new), ("int", i + 1)])])])]
         return PANIC
     raise ValueError(family)
+
+
+ELEM = {"elem_read", "elem_lend", "elem_leaf_read", "elem_assign", "augassign", "elem_read2"}
+
+
+def elem_val(kind, k):
+    """element number k of an array of structs / tuples / rows"""
+    if kind == "row":
+        return ("arr", [("int", 10 * k), ("int", 10 * k + 1)])
+    return ("tuple", [("arr", [("int", 10 * k), ("int", 10 * k + 1)]), ("int", 7 + k)])
+
+
+def spec_elem(family, params, inputs):
+    n = params["n"]
+    arr = inputs[0]
+    if family == "elem_read2":
+        e = leaf_at(arr, (n, params["m"]), (inputs[1][1], inputs[2][1]))
+        return [e[1][1], arr] if e is not None else PANIC
+    if family == "augassign":
+        if params["index"] == "var":
+            i = inputs[1][1]
+            e = leaf_at(arr, (n,), (i,))
+            return [replace_at(arr, (i,), ("int", e[1] + 1))] if e is not None else PANIC
+        k = inputs[1][1][0][1]      # xs[e] += 1 evaluates e ONCE: element k is read and written
+        e = leaf_at(arr, (n,), (k,))
+        return [replace_at(arr, (k,), ("int", e[1] + 1)), ("arr", [("int", k + 1)])] if e is not None else PANIC
+    i = inputs[1][1]
+    e = leaf_at(arr, (n,), (i,))
+    if e is None:
+        return PANIC
+    if family == "elem_read":
+        return [("int", e[1][1][1] * params["reads"]), arr]
+    if family == "elem_lend":
+        return [e[1][1], arr]
+    if family == "elem_leaf_read":
+        return [e[1][0][1][1], arr]
+    if family == "elem_assign":
+        new = ("arr", [("int", 1), ("int", 2)])
+        return [replace_at(arr, (i,), new if params["elem"] == "row" else ("tuple", [new, ("int", 5)]))]
+    raise ValueError(family)
+
+
+def grid_elem(family, params, rng, thorough):
+    n = params["n"]
+    I = indices(n, thorough)
+    if family == "augassign":
+        full = ("arr", [("int", 100 + k) for k in range(n)])
+        return [[full, ("int", i)] if params["index"] == "var" else [full, ("arr", [("int", i)])] for i in I]
+    if family == "elem_read2":
+        full = ("arr", [("arr", [elem_val("struct", 2 * a + b) for b in range(params["m"])]) for a in range(n)])
+        return [[full, ("int", i), ("int", j)] for i in sorted(set(range(n)) | {-1, n}) for j in sorted(set(range(params["m"])) | {-1, params["m"]})]
+    full = ("arr", [elem_val(params["elem"], k) for k in range(n)])
+    lent = replace_at(full, (rng.randrange(n),), None)
+    return [[a, ("int", i)] for a in (full, lent) for i in I]
+
+
+def has_lent(v):
+    if v is None:
+        return True
+    if v[0] == "arr":
+        return any(has_lent(c) for c in v[1])
+    if v[0] == "tuple":
+        return any(has_lent(c) for c in v[1])
+    if v[0] == "sum":
+        return any(has_lent(c) for c in v[2])
+    return False
+
+
+def decode(enc):
+    """inverse of enc_outcome (Array.v): -> ("ok", [values]) | ("panic", code) | ("stuck",)"""
+    pos = [0]
+
+    def nxt():
+        pos[0] += 1
+        return enc[pos[0] - 1]
+
+    def val():
+        t = nxt()
+        if t == 0:
+            return ("int", nxt())
+        if t == 1:
+            return ("usize", nxt())
+        if t == 2:
+            return ("res", nxt())
+        if t == 3:
+            return ("err",)
+        if t == 4:
+            tag, k = nxt(), nxt()
+            return ("sum", tag, [val() for _ in range(k)])
+        if t == 5:
+            k = nxt()
+            return ("tuple", [val() for _ in range(k)])
+        if t == 6:
+            k = nxt()
+            return ("arr", [val() if nxt() == 1 else None for _ in range(k)])
+        raise ValueError(t)
+    head = nxt()
+    if head == 1:
+        return ("panic", nxt())
+    if head == 2:
+        return ("stuck",)
+    k = nxt()
+    return ("ok", [val() for _ in range(k)])
+
+
+def balance(region):
+    """Static, family-independent invariant on a basic block: follow every borrow_array value from
+    the block inputs through borrow/return/get/set/unwrap and report
+      * a `return` into an array that came into the block whole (a parameter) with no outstanding
+        borrow at that index wire  (it can only panic: the slot is occupied), and
+      * a block output array that still has an outstanding borrow (a cell left lent at exit).
+    Index wires are compared by the int register feeding `itousize`.  Arrays of unknown provenance
+    (elements taken out of other arrays, call results) are not judged."""
+    k = region["n_inputs"]
+    state = {r: ("whole", ()) for r in range(k)}      # reg -> (origin, outstanding index wires)
+    src, problems = {}, []
+    for i in region["instrs"]:
+        if "cond" in i:
+            # unwrap of a `set` result: outputs (old element, array)
+            st = state.get(i["cond"])
+            if st is not None and st[0] == "sum" and i["nout"] == 2:
+                state[k + 1] = st[1]
+        else:
+            name, ins = i["op"][0], i["ins"]
+            if name == "itousize":
+                src[k] = ins[0]
+            elif name == "borrow" and ins[0] in state:
+                o, out = state[ins[0]]
+                state[k] = (o, out + (src.get(ins[1], ins[1]),))
+            elif name == "return" and ins[0] in state:
+                o, out = state[ins[0]]
+                w = src.get(ins[1], ins[1])
+                if w in out:
+                    lst = list(out)
+                    lst.remove(w)
+                    state[k] = (o, tuple(lst))
+                elif o == "whole":
+                    problems.append(f"return<{i['op'][1]}> into array r{ins[0]} at index wire r{w}: the array came in whole and "
+                                    f"no borrow at that wire is outstanding (outstanding: {['r%d' % x for x in out]}) - the slot is occupied, the op can only panic")
+                    state[k] = (o, out)
+                else:
+                    state[k] = (o, out)
+            elif name == "get" and ins[0] in state:
+                state[k + 1] = state[ins[0]]
+            elif name == "set" and ins[0] in state:
+                state[k] = ("sum", state[ins[0]])
+            elif name == "new_all_borrowed":
+                state[k] = ("unknown", ())
+        k += i["nout"]
+    for pos, r in enumerate(region["outs"]):
+        st = state.get(r)
+        if st is not None and st[0] == "whole" and st[1]:
+            problems.append(f"block output {pos} (array r{r}) still has cells lent at exit: borrows at index wires "
+                            f"{['r%d' % x for x in st[1]]} were never matched by a return")
+    return problems
 
 
 NESTED = {"lend_nested", "lend_nested_oracle", "lend_nested_inner_oracle", "lend_nested_arith", "lend2_nested_oracle",
@@ -511,6 +702,8 @@ def grid(family, params, rng, thorough):
     """input vectors (lists of python values) for one case"""
     if family in NESTED:
         return grid_nested(family, params, rng, thorough)
+    if family in ELEM:
+        return grid_elem(family, params, rng, thorough)
     n = params["n"]
     linear = family in ("use1", "use2") or params.get("ty") == "qubit"
     base = [("res", k) if linear else ("int", 100 + k) for k in range(n)]
